@@ -175,6 +175,11 @@ def load(relpath, shims=None, div=False, ifconv=False, only=None, extra=None, mo
                 tg = n.targets[0] if isinstance(n, ast.Assign) else n.target
                 if isinstance(tg, ast.Name):
                     defs.setdefault(tg.id, n)
+        imports = {}
+        for n in body:
+            if isinstance(n, (ast.Import, ast.ImportFrom)) and not (isinstance(n, ast.ImportFrom) and n.module == '__future__'):
+                for a in n.names:
+                    imports.setdefault(a.asname or a.name.split('.')[0], n)
         kept = {id(n) for n in keep}
         work = list(keep)
         while work:
@@ -183,6 +188,8 @@ def load(relpath, shims=None, div=False, ifconv=False, only=None, extra=None, mo
                 if isinstance(sub, ast.Name) and sub.id in defs and sub.id not in supplied and id(defs[sub.id]) not in kept:
                     kept.add(id(defs[sub.id]))
                     work.append(defs[sub.id])
+                elif isinstance(sub, ast.Name) and sub.id in imports and sub.id not in supplied and sub.id not in defs:
+                    kept.add(id(imports[sub.id]))      # an import the kept code needs and the caller does not supply (shims still apply)
         body = [n for n in body if id(n) in kept]
     tree.body = body
     if div or ifconv or setorder:
